@@ -10,13 +10,60 @@ META = dict(
 )
 
 
+def _partial_records(ctx):
+    import glob, json, os
+    res = []
+    files = sorted(glob.glob(os.path.join(ctx.scratch, "go*", "out.ndjson")), key=os.path.getmtime)
+    if files:
+        for line in open(files[-1], errors="replace"):
+            try:
+                res.append(json.loads(line))
+            except Exception:
+                pass
+    return res
+
+
+def _library_crash(msg, repo):
+    """Return a one-line description if msg shows a Go panic / fatal error whose first
+    repository frame is library code (not a zz_verif_ harness file); None otherwise."""
+    import re
+    m = re.search(r"^(panic: .*|fatal error: .*)$", msg, re.M)
+    if not m:
+        return None
+    tail = msg[m.start():]
+    for fm in re.finditer(r"^\s+(/\S+\.go):(\d+)", tail, re.M):
+        path = fm.group(1)
+        if not path.startswith(repo.rstrip("/") + "/"):
+            continue
+        base = path.rsplit("/", 1)[1]
+        if base.startswith("zz_verif_") or base.endswith("_test.go"):
+            return None
+        return "%s at %s:%s" % (m.group(1)[:200], base, fm.group(2))
+    return None
+
+
 def run(ctx):
     nb = ctx.pick(3, 4)
     sizes = "{0, 1, 5, 8191, 8192, 8193, 20000}"
-    path, _ = ctx.tlc_gen("data", "ByteRangeGen", consts={"NB": nb, "SIZES": sizes}, workers=4, timeout=1200)
+    path, _ = ctx.tlc_gen("data", "ByteRangeGen", consts={"NB": nb, "SIZES": sizes, "SL": ctx.pick(2, 3)}, workers=4, timeout=1200)
     if not path:
         raise Infra("ByteRangeGen wrote no vectors")
-    recs = ctx.go_test(".", ["c24_"], "^TestVerifC24$", infile=path, timeout=1200)
+    try:
+        recs = ctx.go_test(".", ["c24_"], "^TestVerifC24$", infile=path, timeout=1200)
+    except Infra as e:
+        # The harness recovers panics of the FS handler itself (reported as `crash:` violations
+        # with the offending request). If the library still takes the whole test process down
+        # (a panic in a server goroutine outside the handler), that is behaviour of the code
+        # under test, not an infrastructure problem: keep the verdicts flushed so far and
+        # report the crash - unless the panicking frame is harness code.
+        crash = _library_crash(str(e), ctx.repo)
+        if crash is None:
+            raise
+        recs = [r for r in _partial_records(ctx) if r.get("t") in ("viol", "sample")]
+        ctx.absorb(recs)
+        ctx.violation("crash:process", "the test process running the real FS/Server code died: " + crash,
+                      dict(output_tail=str(e)[-3000:]))
+        recs = []
     ctx.absorb(recs)
     ctx.exhaustive = True
     ctx.rule = ("ParseByteRange: all values <unit><body of <= %d symbols over {- , x 0 1 2 5 6 7}> x length 0..6, non-trivial = "
